@@ -668,10 +668,13 @@ func main() {
 		}
 		r := rand.New(rand.NewSource(vh.Mix(*seed, "route", i)))
 		var o *caseOut
-		if *prop == "C20" && i%5 != 4 {
-			continue // C20 uses this engine only for the stream cases (messages judged after later hand-offs)
+		if *prop == "C20" && i%5 != 4 && i%200 != 7 {
+			continue // C20 uses this engine only for the stream cases (messages judged after later hand-offs) and the real http transport
 		}
-		if i%200 == 7 && *prop == "C19" {
+		if *prop == "C08" && i%200 != 7 {
+			continue // C08 uses this engine only for the real http transport (what counts as a successful hand-off)
+		}
+		if i%200 == 7 {
 			o = runHttpReal(r, met, rep)
 		} else if i%5 == 4 {
 			o = runStream(r, met, rep)
